@@ -1745,10 +1745,20 @@ func (c *compiler) optimizeCodeOps() {
 	if verifOptOff(verifOptCodeOps) {
 		return
 	}
+	targets := make(map[int]bool) // instructions reached by a jump or a fork
+	for _, code := range c.codes {
+		switch code.op {
+		case opfork, opforktrybegin, opforkalt, opjump, opjumpifnot:
+			targets[code.v.(int)] = true
+		}
+	}
 	for i, next := len(c.codes)-1, (*code)(nil); i >= 0; i-- {
 		code := c.codes[i]
 		switch code.op {
 		case oppush, opdup, opload:
+			if targets[i+1] {
+				break // the next instruction is not only reached from here
+			}
 			switch next.op {
 			case oppop:
 				code.op = opnop
